@@ -355,9 +355,13 @@ def _worker(a):
     try:
         pre = random.Random(seed ^ 0x5bd1e995)
         npre = max(a["npre"], 3) if a.get("directed") == "svc-recase-xreply" else a["npre"]
+        if a.get("directed") == "svc-table-full-then-replace":
+            npre = 4
         for k in range(npre):
             cid = 900 + k
             how = pre.random()
+            if a.get("directed") == "svc-table-full-then-replace" and k < 2:
+                how = [0.7, 0.9][k]         # both kinds of abandoned client
             if how < 0.6:
                 c11.probe(sa, pre, cid, None)            # brought to a verdict (or disconnected at the end)
             else:
@@ -365,6 +369,9 @@ def _worker(a):
                 sa.do({"t": "announce", "id": cid, "ip": "10.9.9.9", "port": 999})
                 sa.do({"t": "password", "id": cid, "text": "+x zed pw"})
                 sa.do({"t": "hurry", "id": cid})
+                if how > 0.8:
+                    # ... and whose id is announced again (the previous holder is replaced, not withdrawn)
+                    sa.do({"t": "announce", "id": cid, "ip": "10.9.9.8", "port": 998})
                 if cid in sa.open:
                     sa.do({"t": "disconnect", "id": cid})
         # the first probe after the last reload comes from the address the last client before it came from (a per-address
